@@ -1936,3 +1936,42 @@ def rf163(run):
     run.control(rule, 'generator stores its own allocations into func_item->data', stores >= 2)
     run.control(rule, 'the release in destroy_func_cfg is seen', n >= 1)
     return n
+
+
+# ---------------------------------------------------------------------------------------------
+# RF165: generating one version of a basic block does not edit the function
+# ---------------------------------------------------------------------------------------------
+
+def rf165(run):
+    rule = 'RF165'
+    run.rule(rule, 'lazy basic-block generation: bb_version_generator runs once per *version* of a block, at the moment control first reaches '
+                   'it, over the instruction list that all versions (and the bb stubs\' first_insn / last_insn pointers) share.  Neither it nor '
+                   'anything it calls removes, frees into, or inserts into that list (MIR_remove_insn, MIR_insert_insn_*, MIR_append_insn, '
+                   'gen_delete_insn, gen_add_insn_*, …): a removed property branch is freed while the loop still reads it (D112) and is '
+                   'missing for the versions generated later')
+    tu = run.tu('gen')
+    MUT = {'MIR_remove_insn', 'MIR_insert_insn_before', 'MIR_insert_insn_after', 'MIR_append_insn', 'MIR_prepend_insn', 'gen_delete_insn',
+           'gen_add_insn_before', 'gen_add_insn_after', 'gen_move_insn_before', 'ssa_delete_insn', 'DLIST_MIR_insn_t_remove',
+           'DLIST_MIR_insn_t_insert_before', 'DLIST_MIR_insn_t_insert_after', 'DLIST_MIR_insn_t_append', 'DLIST_MIR_insn_t_prepend'}
+    root = tu.func('bb_version_generator')
+    reach = set(tu.reachable([root.name])) | {root.name}
+    run.control(rule, 'generate_bb_version_machine_code is reachable from bb_version_generator', 'generate_bb_version_machine_code' in reach)
+    # control: the whole-function path does edit the list (the extractor sees such calls)
+    ctrl = sum(1 for g in tu.func_list if g.body is not None for x in g.walk() if x['k'] == 'CallExpr' and x.get('callee') in MUT)
+    run.control(rule, 'list-editing calls elsewhere in the generator', ctrl >= 20)
+    n = 0
+    for fn in sorted(reach):
+        g = tu.func(fn)
+        if g is None or g.body is None:
+            continue
+        run.functions_analysed.add(('gen', g.name))
+        for x in g.walk():
+            if x['k'] == 'CallExpr' and x.get('callee') in MUT:
+                n += 1
+                run.ob(rule, (g.name, x['l']), False, {'site': '%s:%d %s' % (g.relfile(), x['l'], g.name), 'call': F.src(x)[:70]})
+                run.violation(rule, g, 'instruction list edited per bb version', '%s, reachable from bb_version_generator, calls %s (line %d): the '
+                              'instruction list is shared by all versions of the block and by the stubs\' first/last pointers — an instruction '
+                              'removed for one version is freed under the generating loop and absent for the next version' %
+                              (g.name, x['callee'], x['l']), line=x['l'])
+    run.ob(rule, ('closure',), n == 0, {'functions reachable from bb_version_generator': len(reach), 'list-editing calls': n})
+    return 1
